@@ -1,6 +1,8 @@
 package props
 
 import (
+	"fmt"
+	"go/token"
 	"go/types"
 	"sort"
 
@@ -101,5 +103,89 @@ func c01NilImplementations(c *core.Check) {
 	}
 	if len(keys) == 0 {
 		r.Anchor("interface methods returning pointers that a caller dereferences unchecked")
+	}
+}
+
+// c01NilResults: the pointer returned by a function of the module that has a `return nil` is dereferenced (field,
+// element of the pointed array, load) only where a comparison of that very result with nil excludes nil.  `len(p)` of
+// a pointer to an array is a constant and tests nothing.
+func c01NilResults(c *core.Check) {
+	p := c.Prog
+	r := c.Rule("R18", "a result that can be nil is tested before it is used: for every static call to a function of the module that returns a pointer and contains `return nil`, each dereference of the result is reachable only after a comparison of that result with nil (the length of a pointer to an array is a constant: `len(p) == 2` tests nothing)", 5)
+	retNil := map[*ssa.Function]bool{}
+	for _, fn := range p.ModFuncs {
+		if fn.Blocks == nil || fn.Signature.Results().Len() != 1 {
+			continue
+		}
+		if _, isPtr := fn.Signature.Results().At(0).Type().Underlying().(*types.Pointer); !isPtr {
+			continue
+		}
+		fn := fn
+		core.Instrs(fn, func(in ssa.Instruction) {
+			if ret, ok := in.(*ssa.Return); ok && len(ret.Results) == 1 {
+				if k, ok := ret.Results[0].(*ssa.Const); ok && k.Value == nil {
+					retNil[fn] = true
+				}
+			}
+		})
+	}
+	n := 0
+	for _, fn := range p.ModFuncs {
+		if fn.Blocks == nil {
+			continue
+		}
+		fn := fn
+		seenKey := map[string]int{}
+		core.Instrs(fn, func(in ssa.Instruction) {
+			call, ok := in.(*ssa.Call)
+			if !ok || call.Call.StaticCallee() == nil || !retNil[call.Call.StaticCallee()] || call.Referrers() == nil {
+				return
+			}
+			var atoms []ssa.Value
+			pol := map[ssa.Value]bool{}
+			for _, a := range core.CondAtoms(fn) {
+				bo, ok := a.(*ssa.BinOp)
+				if !ok || (bo.Op != token.NEQ && bo.Op != token.EQL) || bo.X != ssa.Value(call) {
+					continue
+				}
+				atoms = append(atoms, a)
+				pol[a] = bo.Op == token.NEQ
+			}
+			for _, ref := range *call.Referrers() {
+				deref := false
+				switch x := ref.(type) {
+				case *ssa.FieldAddr:
+					deref = x.X == ssa.Value(call)
+				case *ssa.IndexAddr:
+					deref = x.X == ssa.Value(call)
+				case *ssa.UnOp:
+					deref = x.Op == token.MUL
+				}
+				if !deref {
+					continue
+				}
+				n++
+				ok := false
+				if len(atoms) > 0 {
+					ok, _ = core.GuardedBy(fn, ref.Block(), atoms, func(m map[ssa.Value]bool) bool {
+						for a, v := range m {
+							if v == pol[a] {
+								return true
+							}
+						}
+						return false
+					})
+				}
+				key := core.FuncName(fn) + " | result of " + call.Call.StaticCallee().Name() + " used at " + p.StmtTextAt(fn, ref.Pos())
+				seenKey[key]++
+				if seenKey[key] > 1 {
+					key = fmt.Sprintf("%s #%d", key, seenKey[key])
+				}
+				r.Cond(ok, key, p.Pos(ref.Pos()), "dereferenced only where the result was compared with nil", core.FuncName(call.Call.StaticCallee())+" can return nil and its result is dereferenced here without a comparison with nil on the way: nil pointer dereference (`<p lang=en style=\"hyphens:auto;width:30px\">aaa b</p>`)")
+			}
+		})
+	}
+	if n == 0 {
+		r.Anchor("dereferences of results of nil-returning functions")
 	}
 }
